@@ -39,6 +39,7 @@ type Schedule struct {
 	Mode    string     `json:"mode"`
 	Keys    [][]string `json:"keys"`    // threads: key names of request i+1; slots: the key sets to try
 	Steps   []int      `json:"steps"`   // threads: request to release, one gate-to-gate step each
+	Late    []int      `json:"late"`    // threads: requests that call Release once more at a later, scheduled time
 	N       int        `json:"n"`       // free: goroutines
 	Loops   int        `json:"loops"`   // free: rounds per goroutine
 	Seed    int64      `json:"seed"`
@@ -131,6 +132,10 @@ func runThreads(sc *Schedule, emit func(vt.Ev)) {
 	}
 	defer func() { utils.VerifHook = nil }()
 	n := len(sc.Keys)
+	late := map[int]bool{}
+	for _, t := range sc.Late {
+		late[t] = true
+	}
 	for t := 1; t <= n; t++ {
 		t, names := t, sc.Keys[t-1]
 		if names == nil {
@@ -143,6 +148,10 @@ func runThreads(sc *Schedule, emit func(vt.Ev)) {
 			emit(vt.Ev{"e": "Released", "t": t})
 			g.Release()
 			emit(vt.Ev{"e": "Release2", "t": t, "ok": release2(g)})
+			if late[t] {
+				s.Yield("late")
+				emit(vt.Ev{"e": "Release2", "t": t, "ok": release2(g), "late": true})
+			}
 		})
 	}
 	step := func(t int) gate.Status {
@@ -223,6 +232,10 @@ func runFree(sc *Schedule, emit func(vt.Ev)) {
 				if rng.Intn(2) == 0 {
 					emit(vt.Ev{"e": "Release2", "t": t, "ok": release2(g)})
 				}
+				if rng.Intn(4) == 0 { // a late second Release, while others are acquiring
+					time.Sleep(time.Duration(rng.Intn(30)) * time.Microsecond)
+					emit(vt.Ev{"e": "Release2", "t": t, "ok": release2(g), "late": true})
+				}
 			}
 		}()
 	}
@@ -265,7 +278,10 @@ func main() {
 			vt.Fatal("re-exec: %v", err)
 		}
 		sc := &scheds[i]
-		emit := func(ev vt.Ev) { ev["s"] = sc.ID; w.Emit(ev) }
+		// the code under test can abort the process (sync: unlock of unlocked mutex): every event
+		// reaches the file at once, so that the check can judge what happened before
+		emit := func(ev vt.Ev) { ev["s"] = sc.ID; w.Emit(ev); _ = w.Flush() }
+		emit(vt.Ev{"e": "Begin", "i": i})
 		switch sc.Mode {
 		case "slots":
 			runSlots(sc, emit)
